@@ -127,8 +127,16 @@ def is_complex_case(rhos) -> bool:
 
 
 def solver_failure(exc: BaseException) -> bool:
-    """picos SolutionFailure, or an arithmetic break-down inside CVXOPT (documented in state_exclusion's docstring)."""
-    return type(exc).__name__ == "SolutionFailure" or isinstance(exc, ArithmeticError)
+    """The solver did not return a solution (DESIGN 4.3 -> indeterminate): picos SolutionFailure, an arithmetic
+    break-down inside CVXOPT (ZeroDivisionError / ArithmeticError, documented in state_exclusion's docstring), or any
+    exception raised from inside the cvxopt package itself (e.g. ValueError 'domain error' on rank-deficient Gram
+    matrices).  Exceptions raised while *building* the problem (picos TypeError ...) are not solver failures."""
+    if type(exc).__name__ == "SolutionFailure" or isinstance(exc, ArithmeticError):
+        return True
+    import traceback
+
+    tb = traceback.extract_tb(exc.__traceback__)
+    return bool(tb) and "/cvxopt/" in tb[-1].filename.replace("\\", "/")
 
 
 def solver_kwargs(strategy: str, pd: str) -> dict:
